@@ -133,6 +133,10 @@ func runMirror(events []string, props []string, seed int, args map[string]string
 		gFrom, sFrom := len(s.gLog), len(s.sLog)
 		a := s.apply(ev)
 		resend := s.resend
+		if ev == "Restart" && !strings.HasPrefix(a.result, "restart-failed") {
+			// A clean stop at a quiescent point: the durable state is what the stores held before it.
+			o.afterRestart(before)
+		}
 		if !s.st.f.frozen {
 			// The event's asynchronous consequences (the state machine's reaction, view shifts) write too: a crash point
 			// inside them stops the process here, not one event later with the stores failing in between.
